@@ -25,14 +25,22 @@ Fixpoint eval_pred (q : vpred) (p : path) (k : key) (s : sview) : bool :=
   | POr a b => eval_pred a p k s || eval_pred b p k s
   end.
 
-Definition vprog := list (vpred * action).
-Fixpoint run_prog (pr : vprog) (p : path) (k : key) (s : sview) : action :=
+(* ordered rules; the first whose predicate holds decides: an action, or None = raise *)
+Definition vprog := list (vpred * option action).
+Fixpoint run_prog (pr : vprog) (p : path) (k : key) (s : sview) : option action :=
   match pr with
-  | [] => Put None None
+  | [] => Some (Put None None)
   | (q, a) :: r => if eval_pred q p k s then a else run_prog r p k s
   end.
-Definition visit_of (pr : option vprog) : option visit_fn :=
+Definition mvisit_of (pr : option vprog) : option mvisit_fn :=
   match pr with None => None | Some pr => Some (fun p k v => run_prog pr p k (shallow v)) end.
+(* the callback as the Spec sees it when exceptions are swallowed (reraise_visit=False:
+   "items causing exceptions are kept") *)
+Definition visit_of (pr : option vprog) : option visit_fn :=
+  match pr with
+  | None => None
+  | Some pr => Some (fun p k v => match run_prog pr p k (shallow v) with Some a => a | None => Put None None end)
+  end.
 
 (* ---- case -------------------------------------------------------------------- *)
 Definition vcall := (path * key * sview)%type.
@@ -41,6 +49,7 @@ Definition rentry := (path * oref * res oref)%type.   (* reported path, value, w
 Record c08_case := mkCase {
   c_in : obj;                       (* the input graph (ids = the harness's numbering of the input's containers) *)
   c_visit : option vprog;
+  c_reraise : bool;                 (* reraise_visit (default True) *)
   c_out : res obj;                  (* remap(root, visit): output graph / exception type *)
   c_calls : list vcall;             (* calls received by visit, in order *)
   c_in_after : obj;                 (* the input graph re-read after remap *)
@@ -74,7 +83,7 @@ Definition outcome_calls (o : outcome) : list vcall :=
 
 (* ---- agree: model = implementation ------------------------------------------- *)
 Definition model_remap (c : c08_case) : outcome :=
-  remap (visit_of (c_visit c)) (collect_defs (c_in c)) (c_in c).
+  remap (mvisit_of (c_visit c)) (c_reraise c) (collect_defs (c_in c)) (c_in c).
 
 Definition rentry_eqb (a b : rentry) : bool :=
   let '(p, r, g) := a in let '(p', r', g') := b in
@@ -121,10 +130,29 @@ Definition agree (c : c08_case) : bool :=
   && res_eqb (list_eqb rentry_eqb) (model_research c) (c_research c).
 
 (* ---- holds: the implementation's observation satisfies the Spec ---------------- *)
+(* the calls up to and including the first one on which the callback raises *)
+Fixpoint upto_raise (pr : vprog) (cs : list vcall) : option (list vcall) :=
+  match cs with
+  | [] => None
+  | (p, k, s) :: r =>
+      match run_prog pr p k s with
+      | None => Some [(p, k, s)]
+      | Some _ => match upto_raise pr r with Some l => Some ((p, k, s) :: l) | None => None end
+      end
+  end.
+
+(* remap = the recursive rebuild; when the callback raises and reraise_visit is
+   set, the rebuild is abandoned at that call and the exception propagates *)
 Definition ok_rebuild (c : c08_case) : bool :=
   let s := spec_remap (visit_of (c_visit c)) (c_in c) in
-  res_eqb obj_eqb (outcome_result s) (canon_res (c_out c))
-  && list_eqb vcall_eqb (outcome_calls s) (c_calls c).
+  match (if c_reraise c then match c_visit c with Some pr => upto_raise pr (outcome_calls s) | None => None end
+         else None) with
+  | Some calls =>
+      res_eqb obj_eqb (Raise VisitError) (canon_res (c_out c)) && list_eqb vcall_eqb calls (c_calls c)
+  | None =>
+      res_eqb obj_eqb (outcome_result s) (canon_res (c_out c))
+      && list_eqb vcall_eqb (outcome_calls s) (c_calls c)
+  end.
 
 Definition ok_untouched (c : c08_case) : bool :=
   obj_eqb (c_in c) (c_in_after c) && obj_eqb (c_in c) (c_in_final c)
